@@ -99,7 +99,7 @@ class Ctx:
         self.replay = replay
         self.selftest = selftest
         self.t0 = time.time()
-        self.out = os.path.join(VERIF, "out", prop)
+        self.out = os.path.join(os.environ.get("VERIF_OUT") or os.path.join(VERIF, "out"), prop)
         os.makedirs(self.out, exist_ok=True)
 
     @property
